@@ -353,6 +353,9 @@ def run_project_case(case: dict) -> dict:
                 fp.write_text(content)
             env = dict(os.environ, GIT_CONFIG_GLOBAL="/dev/null", GIT_CONFIG_SYSTEM="/dev/null", HOME=str(d))
             subprocess.run(["git", "init", "-q"], cwd=root, env=env, check=True, capture_output=True)
+            if case.get("git_exclude"):        # ignore rules of the repository that are not part of the work tree
+                with open(root / ".git" / "info" / "exclude", "a") as fh:
+                    fh.write(case["git_exclude"])
             subprocess.run(["git", "add", "-A"], cwd=root, env=env, check=True, capture_output=True)
         if case.get("under"):
             # the whole abstract project sits below a Meson subproject directory of a larger tree, and lint is told to include
